@@ -4,7 +4,7 @@
    the regenerated shape (C03_shape_agrees) and by the correspondence run (harness/props/c03.py). *)
 From Coq Require Import NArith ZArith List Bool String.
 From AV Require Import Model.WampValue Model.WampSchema Model.WampMsg Model.WampMsgRun 
-  Proofs.WampWfProofs Proofs.WampStrictProofs Proofs.WampBatchProofs Proofs.WampMsgProofs.
+  Proofs.WampLayoutProofs Proofs.WampWfProofs Proofs.WampStrictProofs Proofs.WampBatchProofs Proofs.WampMsgProofs.
 Import ListNotations.
 Open Scope list_scope.
 
@@ -49,6 +49,57 @@ Theorem C03_no_option_conditional_on_another_attribute :
   forallb (fun s => forallb not_gated (s_opts s)) schemas = true.
 Proof. exact no_option_gated. Qed.
 Print Assumptions C03_no_option_conditional_on_another_attribute.
+
+(* ---- repeated sub-structures (HELLO / WELCOME roles and their features) are handled entry by entry: what
+   parse() keeps and what marshal() writes for one role depends on that role alone (no state carried from one loop
+   iteration to the next), every feature flag set on a role is written under that role, and each role comes back
+   with exactly its own feature values ---- *)
+Theorem C03_roles_parsed_entrywise : forall cfg od rd i,
+  dget (s2l "roles") od = Some (VDict rd) ->
+  nth_error (extract_roles cfg od) i = option_map (extract_role cfg) (nth_error rd i).
+Proof. exact extract_roles_pointwise. Qed.
+Print Assumptions C03_roles_parsed_entrywise.
+
+Theorem C03_roles_marshalled_entrywise : forall cfg rs i,
+  match marshal_roles cfg rs with
+  | VDict rd => nth_error rd i = option_map (marshal_role cfg) (nth_error rs i)
+  | _ => False
+  end.
+Proof. exact marshal_roles_pointwise. Qed.
+Print Assumptions C03_roles_marshalled_entrywise.
+
+Theorem C03_role_features_preserved : forall cfg name feats vals i f v,
+  cfg_wf cfg = true -> find_role cfg name = Some feats ->
+  List.length vals = List.length feats ->
+  nth_error feats i = Some f -> nth_error vals i = Some v -> is_null v = false ->
+  exists e, snd (marshal_role cfg (KS name, vals)) = VDict [(KS (s2l "features"), VDict e)]
+            /\ dget (s2l f) e = Some v.
+Proof. exact role_feature_marshalled. Qed.
+Print Assumptions C03_role_features_preserved.
+
+Theorem C03_role_roundtrip : forall cfg r, cfg_wf cfg = true -> role_shape_ok cfg r = true ->
+  extract_role cfg (marshal_role cfg r) = r.
+Proof. exact role_roundtrip. Qed.
+Print Assumptions C03_role_roundtrip.
+
+Theorem C03_roles_cfg_wf : cfg_wf hello_roles = true /\ cfg_wf welcome_roles = true.
+Proof. exact roles_cfg_wf. Qed.
+
+(* HELLO: publisher WITH features announced before a feature-less subscriber, then a callee with other features:
+   each role comes back with its own features only *)
+Definition ex_hello_mixed_roles : msg :=
+  let nulls n := map (fun _ => VNull) (seq 0 n) in
+  {| m_pos := [VStr (s2l "realm1")];
+     m_opts := map (fun _ => VNull) (s_opts Hello);
+     m_pl := null_pl;
+     m_roles := [(KS (s2l "publisher"), [VBool true; VNull; VNull; VBool true; VNull; VNull]);
+                 (KS (s2l "subscriber"), nulls 7%nat);
+                 (KS (s2l "callee"), [VBool false; VNull; VNull; VNull; VNull; VNull; VBool true; VNull; VNull; VNull])];
+     m_custom := [] |}.
+Example C03_witness_hello_mixed_roles :
+  valid uri_simple custom_simple Hello ex_hello_mixed_roles
+  /\ parse_i Hello (marshal Hello ex_hello_mixed_roles) = Ok ex_hello_mixed_roles.
+Proof. split; [repeat split; vm_compute; reflexivity | vm_compute; reflexivity]. Qed.
 
 (* the documented payload-transparency triple: written exactly when a non-empty payload is *)
 Theorem C03_payload_triple : forall custom_ok, custom_law custom_ok ->
